@@ -555,7 +555,9 @@ PROPS = {
                 "inputs), flags (the importers with several account flags under every set partition of {Expenses:TBD, flag accounts}: two, three or all flags naming one account, flags naming Expenses:TBD, "
                 "never the import account; half of the stmt / malformed statements of these importers also draw such a collision), big (statements of hundreds to tens of thousands of rows, output 100 KiB to several MiB, "
                 "imported once with an eager reader - all monitors of stmt - and then with stdout read by paced consumers: late start, stall at an offset, slow / tiny / bursty reads, pipes of 4 KiB to 1 MiB, "
-                "regular file; every consumer's bytes must equal the eager reader's and the model's and satisfy output_parses, one_transaction_per_row, faithful_to_statement), lib-dec, lib-date, lib-str. "
+                "regular file; every consumer's bytes must equal the eager reader's and the model's and satisfy output_parses, one_transaction_per_row, faithful_to_statement), "
+                "long (per importer: statements of 1-40 rows in which one to three free-text fields - first / middle / last rows, ch.viac: white space between values - are 1 KiB to 1 MiB long, the length of the field or of its physical line "
+                "at 4096 / 65536 / 1 MiB / another power of two +-2, just above 64 KiB or log-uniform, as plain words / one token / embedded line ends / Unicode / quotes and separators; all monitors of stmt), lib-dec, lib-date, lib-str. "
                 "class = (stream, importer, outcome, row bucket, free-text features, amount / row-kind features, flag collisions).",
         "assumptions": ["statements are valid text in their encoding (UTF-8, resp. ISO 8859-1 for ch.supercard)",
                         "the accounts given by flags differ from the import account (otherwise a posting pair cancels itself)",
